@@ -69,6 +69,115 @@ def jump_counter_rule(rep, u):
     return n
 
 
+def _field_atoms(fn):
+    """leaf fields of the record the first parameter points to: {key: (node, value bits)}"""
+    u = fn.unit
+    p0 = fn.params[0]["n"]
+    out = {}
+    for pos, root, x, ps in fn.nodes():
+        if x.get("k") != "mem":
+            continue
+        if ps and ps[-1].get("k") == "mem" and core.strip_casts(ps[-1].get("b")) is x:
+            continue                       # an inner step of a longer path
+        b = x
+        while b.get("k") == "mem":
+            b = core.strip_casts(b["b"])
+        if not (b.get("k") == "ref" and b.get("n") == p0):
+            continue
+        bits = None
+        for f in (u.records.get(x.get("rec")) or {}).get("fields", []):
+            if f["n"] == x["f"]:
+                bits = f.get("bits") or (u.type(f["t"]).get("w") if u.type(f["t"])["k"] == "int" else None)
+        if bits:
+            out[key(x)] = (x, bits)
+    return out
+
+
+def locator_rule(rep, u, fns=None):
+    """R-AGREE (validator / locator): a function that returns a pointer into the packet at an offset computed from
+    header fields never points past a packet its sibling validator accepts.  For every value of the fields the
+    offset and the validator's size test depend on (full enumeration, at most 12 bits in total, else undecided),
+    the validator is evaluated on packets one byte, two bytes and half the offset shorter than the returned offset:
+    it must reject them."""
+    import itertools
+    BASE = 0x40000000
+    own = [f for f in (fns if fns is not None else u.function_list) if f.has_cfg and f.params
+           and (fns is not None or f.relfile() in ("include/" + u.label, u.label)) and u.type(f.params[0]["t"])["k"] == "ptr"]
+    vals, locs = [], []
+    for fn in own:
+        at = _field_atoms(fn)
+        if not at:
+            continue
+        rt = u.type(fn.ret)
+        if rt["k"] == "ptr":
+            locs.append((fn, at))
+        elif rt["k"] == "int" and len(fn.params) >= 2 and u.type(fn.params[1]["t"])["k"] == "int":
+            n1 = fn.params[1]["n"]
+            cmp_n = [c for b in fn.blocks.values() for c in [b.cond] if c is not None and
+                     any(core.is_ref(x, name=n1) for x, _ in walk(c)) and
+                     any(x.get("k") == "mem" for x, _ in walk(c))]
+            if cmp_n:
+                # fields compared together with the size take part in the enumeration
+                szf = {key(x) for c in cmp_n for x, _ in walk(c) if x.get("k") == "mem" and key(x) in at}
+                vals.append((fn, at, szf))
+    n = 0
+    for L, la in locs:
+        for V, va, szf in vals:
+            if not set(la) <= set(va):
+                continue
+            la = dict(la)
+            for a in szf:
+                la.setdefault(a, va[a])
+            n += 1
+            rep.functions.add(L.name)
+            rep.functions.add(V.name)
+            inst = "locator:%s/%s" % (L.name, V.name)
+            desc = "%s returns a pointer inside every packet %s accepts (offset from fields %s)" % (L.name, V.name, ", ".join(sorted(la)))
+            names = sorted(la)
+            if sum(la[a][1] for a in names) > 12:
+                rep.undecided("R-AGREE", L, inst, desc, "more than 12 bits of header fields drive the offset and the size test: not enumerated")
+                continue
+            bad = None
+            unknown = None
+            cases = 0
+            pe_l = r_stride.PE(u, call_default={"mem_chr_ptr": 0, "mem_chr": 0})
+            pe_v = r_stride.PE(u)
+            for combo in itertools.product(*[range(1 << la[a][1]) for a in names]):
+                fb = dict(zip(names, combo))
+                bl = dict(fb)
+                bl[L.params[0]["n"]] = BASE
+                outs = pe_l.outcomes(L, bl, 0)
+                offs = set()
+                for v, sure in outs:
+                    if v is None:
+                        unknown = "the returned pointer of %s is not a computable offset for %s" % (L.name, fb)
+                    elif v != 0:
+                        offs.add(v - BASE)
+                for off in offs:
+                    for sz in sorted({off - 1, off - 2, off // 2, 0}):
+                        if sz < 0 or sz >= off:
+                            continue
+                        cases += 1
+                        bv = dict(fb)
+                        bv[V.params[0]["n"]] = BASE
+                        bv[V.params[1]["n"]] = sz
+                        vo = pe_v.outcomes(V, bv, 0)
+                        if any(v is None for v, s_ in vo):
+                            unknown = "the result of %s is not computable for %s size %d" % (V.name, fb, sz)
+                        elif any(v != 0 for v, s_ in vo) and bad is None:
+                            bad = (fb, off, sz)
+            if bad:
+                fb, off, sz = bad
+                rep.violated("R-AGREE", L, inst, desc, "with %s the validator accepts a packet of %d bytes but %s returns packet + %d" % (
+                    ", ".join("%s=%d" % (a.split("->")[-1], fb[a]) for a in names), sz, L.name, off))
+            elif unknown:
+                rep.undecided("R-AGREE", L, inst, desc, unknown)
+            else:
+                rep.proved("R-AGREE", L, inst, desc, "%d (field values, packet size) cases evaluated; when the callee finds a terminator the "
+                           "result is bounded by its contract (mem_chr_ptr returns a pointer below packet + size)" % cases)
+    return n
+
+
 def run(rep, tier):
     us = driver.load_units(specs())
     rep.use_units(us)
@@ -82,12 +191,22 @@ def run(rep, tier):
         own = ("include/" + lab, lab)
         ns += r_stride.check(rep, u, [f for f in u.function_list if f.relfile() in own])
     rep.floor("data-dependent strides (TLV walkers)", ns, 4)
+    nl = sum(locator_rule(rep, u) for u in us.values())
+    rep.floor("validator/locator pairs", nl, 2)
+    from rules import r_endian
+    nwf = 0
+    for lab, u in us.items():
+        a, b = r_endian.check(rep, u, [f for f in u.function_list if f.file.startswith(core.REPO + "/")])
+        nwf += a
+    rep.floor("wire fields read through ntoh*", nwf, 15)
     return driver.finish(
         rep, "other",
         "Relational abstract interpretation of %d protocol functions (DNS, RADIUS, DHCPv4, HTTP, SDP, SAP, RTP, MPEG-TS). Per access: "
         "inside its buffer for every packet (proved), bound present but insufficient (reported), undecided (listed, not claimed); "
         "loop progress; short-circuit order; bounded compression-pointer walks; attribute walkers whose stride is a length "
-        "field of the packet reject a zero length before advancing (R-STRIDE, partial evaluation through the validators they call). NOT decided: accesses listed as undecided and "
+        "field of the packet reject a zero length before advancing (R-STRIDE, partial evaluation through the validators they call); "
+        "header locators stay inside every packet their validator accepts (R-AGREE, full enumeration of the header fields involved); "
+        "length and count fields in network byte order are converted before any arithmetic or ordering comparison (R-ENDIAN). NOT decided: accesses listed as undecided and "
         "accesses through pointers whose capacity is a field of the packet itself (RADIUS/DHCP attribute walks are mostly of that kind)." % nfn,
         ["(pointer,size) pairs as tabled in props/memsafe.py"], TRUSTED)
 
@@ -98,3 +217,7 @@ def selftest():
     r_stride.check(rep, u, [f for f in u.function_list if f.name.startswith("fx_tlv")])
     fixtures.expect(rep, ["fx_tlv_bad", "fx_tlv_bad_callee"], ["fx_tlv_ok", "fx_tlv_ok_callee", "fx_tlv_ok_plus"], "R-STRIDE")
     memsafe.selftest_cursor()
+    u = fixtures.load("locator.c")
+    rep = driver.Report("fixture", "quick")
+    locator_rule(rep, u, [f for f in u.function_list if f.name.startswith("fx_")])
+    fixtures.expect(rep, ["fx_pkt_payload_bad", "fx_pkt_opts_bad"], ["fx_pkt_payload_ok"], "R-AGREE locator")
